@@ -130,6 +130,7 @@ type openOpts struct {
 	nfs, ngs, ro bool
 	nosync       bool
 	pre, strict  bool
+	asz          int
 }
 
 func (o openOpts) String() string {
@@ -145,6 +146,9 @@ func (o openOpts) String() string {
 	}
 	if o.strict {
 		s += " strict=1"
+	}
+	if o.asz != 0 {
+		s += fmt.Sprintf(" asz=%d", o.asz)
 	}
 	return s
 }
@@ -176,6 +180,8 @@ func parseOpen(fields []string) openOpts {
 			o.pre = n != 0
 		case "strict":
 			o.strict = n != 0
+		case "asz":
+			o.asz = n
 		}
 	}
 	return o
@@ -318,6 +324,9 @@ func (r *runner) exec(line string) (cont bool) {
 		}
 		r.db = db
 		db.StrictMode = r.opts.strict
+		if r.opts.asz != 0 {
+			db.AllocSize = r.opts.asz
+		}
 		r.ps = db.Info().PageSize
 		r.res("ok")
 		r.info("open")
@@ -539,8 +548,8 @@ func (r *runner) info(what string) {
 		return
 	}
 	st := r.db.Stats()
-	_, _, fsz := bolt.VerifDBInfo(r.db)
-	line := fmt.Sprintf("i %s free=%d pend=%d flen=%d", what, st.FreePageN, st.PendingPageN, fsz)
+	_, dsz, fsz := bolt.VerifDBInfo(r.db)
+	line := fmt.Sprintf("i %s free=%d pend=%d flen=%d datasz=%d", what, st.FreePageN, st.PendingPageN, fsz, dsz)
 	if f := bolt.VerifDBFreelist(r.db); f != nil {
 		fr, pend, _ := f.State()
 		var ps []string
